@@ -522,8 +522,17 @@ def _expected_equal(m1, m2):
     if _counting_differs(m1, m2):
         return False
     if brute.applicable(m1, m2):
-        return brute.full_equal(m1, m2)
+        exp = brute.full_equal(m1, m2)
+        if exp and m1.is_reaction and (_atom_marks(m1) or _atom_marks(m2)):
+            # reaction classes also compare the atom attribute "reaction",
+            # about which the properties say nothing: only twins are judged
+            return None
+        return exp
     return None
+
+
+def _atom_marks(m):
+    return [a for a, at in m.atoms.items() if "reaction" in at]
 
 
 def compare_pair(w, g1, m1, g2, m2, tag, props_false="C02", props_true="C01"):
@@ -920,6 +929,12 @@ def check_roundtrip_equal(w, dst, full: RefGraph):
     sl = w.slots[dst]
     R = w.R
     cls = _cls(sl)
+    if full.is_reaction and _atom_marks(full):
+        # attributes are not part of the text; the atom attribute "reaction"
+        # (which reaction classes compare in ==) is left out of the reference
+        full = full.clone()
+        for a in _atom_marks(full):
+            del full.atoms[a]["reaction"]
     try:
         orig = R.guarded(R.build, full)
     except Exception:  # noqa: BLE001
